@@ -26,6 +26,7 @@ import (
 	"sort"
 	"strings"
 
+	"github.com/ethereum/go-ethereum/common"
 	ethcrypto "github.com/ethereum/go-ethereum/crypto"
 	"github.com/jackc/pgconn"
 	"github.com/jackc/pgx/v4/pgxpool"
@@ -41,6 +42,7 @@ import (
 	"github.com/shutter-network/rolling-shutter/rolling-shutter/p2pmsg"
 	"github.com/shutter-network/rolling-shutter/rolling-shutter/shdb"
 
+	"verifharness/dkgrig"
 	"verifharness/pgfake"
 	"verifharness/vh"
 )
@@ -157,7 +159,7 @@ var errRefused = errors.New("verif: the publication mechanism refuses")
 // recMessaging implements p2p.Messaging.
 type recMessaging struct {
 	rec  *recorder
-	self string
+	addr common.Address // the keyper's address: every message must be signed by it
 }
 
 func (m *recMessaging) Start(context.Context, service.Runner) error       { return nil }
@@ -170,13 +172,8 @@ func (m *recMessaging) SendMessage(_ context.Context, msg p2pmsg.Message, _ ...r
 		return nil
 	}
 	a := m.rec.answer()
-	sigOK := false
-	for i, p := range poolAddrs {
-		if p == m.self {
-			ok, err := p2pmsg.VerifySignature(e, ethcrypto.PubkeyToAddress(poolKeys[i].PublicKey))
-			sigOK = ok && err == nil
-		}
-	}
+	ok, err := p2pmsg.VerifySignature(e, m.addr)
+	sigOK := ok && err == nil
 	m.rec.calls = append(m.rec.calls, handed{Mech: "broadcast", Instance: e.InstanceId, Key: append([]byte(nil), e.PublicKey...),
 		Act: e.ActivationBlock, Kci: e.KeyperConfigIndex, Eon: e.Eon, Accepted: a, SigOK: sigOK})
 	if !a {
@@ -382,7 +379,7 @@ func runHist(run *vh.Run, e *env, c histCase) {
 	if c.Cb {
 		opts = append(opts, keyper.WithEonPublicKeyHandler(rec.callback))
 	}
-	h, err := keyper.VerifNewEonPubKeyHandler(cfg, e.pool, &recMessaging{rec: rec, self: self}, opts...)
+	h, err := keyper.VerifNewEonPubKeyHandler(cfg, e.pool, &recMessaging{rec: rec, addr: ethcrypto.PubkeyToAddress(poolKeys[c.Self].PublicKey)}, opts...)
 	if err != nil {
 		// neither mechanism: validateOptions refuses to build such a keyper
 		if !c.Bcast && !c.Cb {
@@ -944,7 +941,15 @@ func main() {
 	run := vh.Start("Verif.Corr.C20", 250)
 	defer run.Finish()
 	initPool()
-	run.SetPreamble(preamble())
+	servers, err := dkgrig.NewServers(run.Repo, 3)
+	if err != nil {
+		panic(err)
+	}
+	defer servers.Close()
+	if err := initRigAddrs(servers); err != nil {
+		panic(err)
+	}
+	run.SetPreamble(preamble() + rigPreamble())
 	run.Rule = "histories against a fresh pgfake database: keyper sets (the keyper in or out), eons, 0..4 successful key generations before each of 2..9 polling ticks (rows delivered in insertion, reverse or random order), modes broadcast / callback / both, classes reachable (70%: keys only for eons of sets the keyper is in, accepting mechanisms), refusing (15%: scripted refusals), foreign (15%: rows no keyper records, negative numbers, duplicate inserts), some ticks with a failing query; forced first: 0..4 keys in one tick in every mode and both orders; non-trivial = some tick polled at least two pending keys; distinct by the JSON rendering of the history"
 	e := newEnv(run.Repo)
 	defer e.srv.Close()
@@ -961,6 +966,20 @@ func main() {
 	}
 	defer finish()
 	if run.Replay != "" {
+		var k struct {
+			Kind string `json:"kind"`
+		}
+		if err := run.LoadReplay(&k); err != nil {
+			panic(err)
+		}
+		if k.Kind == "dkg" {
+			var pc prodCase
+			if err := run.LoadReplay(&pc); err != nil {
+				panic(err)
+			}
+			runProducer(run, servers, pc)
+			return
+		}
 		var c histCase
 		if err := run.LoadReplay(&c); err != nil {
 			panic(err)
@@ -971,6 +990,11 @@ func main() {
 	files := run.CorpusFiles()
 	sort.Strings(files)
 	for _, f := range files {
+		if pc, ok := loadProducerCorpus(f); ok {
+			run.Dist["corpus"]++
+			runProducer(run, servers, pc)
+			continue
+		}
 		c, err := loadCorpus(f)
 		if err != nil {
 			run.Tie("corpus: " + err.Error())
@@ -981,6 +1005,12 @@ func main() {
 	}
 	for _, c := range forced() {
 		runHist(run, e, c)
+	}
+	for _, pc := range forcedProducer() {
+		runProducer(run, servers, pc)
+	}
+	for k, np := 0, run.Scale(24, 600); k < np; k++ {
+		runProducer(run, servers, randomProducer(run.RNG))
 	}
 	n := run.Scale(1000, 50000)
 	for i := 0; i < n; i++ {
